@@ -96,7 +96,7 @@ func cmdVerify(args []string) {
 			}
 			obls = f
 		}
-		vs := Solve(g, obls, *work+"/"+clean(k), *timeout, 16)
+		vs := Solve(g, obls, *work+"/"+clean(k), *timeout, 6)
 		nd, nf := 0, 0
 		for _, v := range vs {
 			switch v.Status {
